@@ -185,8 +185,10 @@ def main(argv=None) -> int:
     samples = []
     violations = []
     per_stage = {}
+    cases = 0
     for res in results:
         ev += res["evaluations"]
+        cases += res.get("cases", 0)
         labels.update(res["labels"])
         fps.update(res["fingerprints"])
         known.update(res["known"])
@@ -217,6 +219,7 @@ def main(argv=None) -> int:
         "level": getattr(mod, "LEVEL", "exploration"),
         "coverage": {
             "evaluations": ev,
+            "generated_cases": cases,
             "distinct_nontrivial": len(fps),
             "rule": getattr(mod, "RULE", ""),
             "samples": samples,
@@ -239,7 +242,7 @@ def main(argv=None) -> int:
             json.dumps(evidence, indent=1, default=str) + "\n")
 
     # report ---------------------------------------------------------------
-    print(f"{prop} tier={tier} seed={seed} evaluations={ev} "
+    print(f"{prop} tier={tier} seed={seed} cases={cases} evaluations={ev} "
           f"distinct_nontrivial={len(fps)} rejected={rejected} "
           f"inconclusive={inconclusive} wall={wall:.1f}s")
     top = ", ".join(f"{k}={v}" for k, v in labels.most_common(14))
